@@ -197,3 +197,12 @@ Definition fixed_replay_calls_wellformed_stmt := replay_calls_wellformed_for run
 Definition span_is_yield_hull_stmt := span_is_yield_hull_for run_actions_fixed.
 Definition span_is_yield_hull_weak_stmt := span_is_yield_hull_weak_for run_actions_fixed.
 Definition replay_span_is_yield_hull_stmt := replay_span_is_yield_hull_for run_actions_fixed_rec.
+
+(* the two mirrors differ in nothing but the spans: same verdict, same errors, same calls up to
+   c_span (with or without recovery, any table) *)
+Definition strip_span (c : call) : call := mkCall (c_pidx c) (c_ridx c) (c_args c) (0, 0)%nat (c_param c).
+Definition fixed_changes_only_spans_stmt : Prop :=
+  forall g A prm lexemes fuel rec oracle r r',
+    run_actions_rec g A prm lexemes fuel rec oracle = Done r ->
+    run_actions_fixed_rec g A prm lexemes fuel rec oracle = Done r' ->
+    r_val r = r_val r' /\ r_errs r = r_errs r' /\ map strip_span (r_log r) = map strip_span (r_log r').
